@@ -7,7 +7,7 @@ The change is applied to /repo's working tree with `git apply` and always undone
 import json, os, shutil, subprocess, sys, time
 
 VERIF = os.path.dirname(os.path.dirname(os.path.abspath(__file__)))
-REPO = '/repo'
+REPO = os.environ.get('VERIF_REPO', '/repo')
 ENV = dict(os.environ, PYTHONPATH=REPO, PYTHONHASHSEED='0')
 
 
@@ -50,7 +50,7 @@ def main():
         res = {}
         for p in props:
             t0 = time.time()
-            c = sh('./check %s %s' % (p, tier), cwd=VERIF, env=dict(os.environ, VERIF_SEED=os.environ.get('VERIF_SEED', '0'), VERIF_TIER=tier))
+            c = sh('./check %s %s' % (p, tier), cwd=VERIF, env=dict(os.environ, VERIF_REPO=REPO, VERIF_SEED=os.environ.get('VERIF_SEED', '0'), VERIF_TIER=tier))
             vio = [l for l in c.stdout.splitlines() if l.startswith('VIOLATION')]
             res[p] = dict(exit=c.returncode, violation=vio[:3], seconds=round(time.time() - t0, 1))
             if vio:
@@ -67,7 +67,7 @@ def main():
         out['caught_by_own_check'] = pid in out['caught_by']
     finally:
         sh('git -C %s checkout -- .' % REPO)
-    dst = os.path.join(VERIF, 'seeded', pid, name)
+    dst = os.path.join(os.environ.get('SEED_OUT', os.path.join(VERIF, 'seeded')), pid, name)
     os.makedirs(dst, exist_ok=True)
     for f in ('patch.diff', 'demo.py'):
         if os.path.abspath(os.path.join(src, f)) != os.path.join(dst, f):
